@@ -105,25 +105,28 @@ Example c13_new_name_lines_examples :
   /\ wf_stream (send (status_line (S_ "a""b") [(S_ "MESSAGES", 0)])) = true.
 Proof. exact new_name_lines_examples. Qed.
 
-(** BuildEnvelope, unconditional since fix wave 3: for EVERY raw message, when
-    parseAddressList returns (C12 owns the panic), the ENVELOPE value is one
+(** BuildEnvelope, unconditional since fix wave 3: for EVERY raw message and EVERY
+    result Go's net/mail can return for its address headers ([mp], a parameter
+    since bd5007f: any strings as display name and address), when the fallback
+    parser returns (C12 owns the panic), the ENVELOPE value is one
     well-formed token with exactly ten fields, each of them one token. *)
-Theorem c13_envelope_wf : forall raw v : str,
-  envelope_value raw = Some v ->
+Theorem c13_envelope_wf : forall (mp : str -> option (list (str * str))) (raw v : str),
+  envelope_value mp raw = Some v ->
   tokb v = true /\ exists fs, length fs = 10 /\ Forall (fun t => tokb t = true) fs
                               /\ tokens (S (length v)) (skipn 1 v) = Some (fs, [RP]).
 Proof. exact envelope_wf. Qed.
 Print Assumptions c13_envelope_wf.
 
-(** parseAddressList alone, for every header value. *)
-Theorem c13_address_list_wf : forall a r : str, parse_address_list a = Some r -> tokp r.
+(** parseAddressList alone, for every header value and every net/mail result. *)
+Theorem c13_address_list_wf : forall (mp : str -> option (list (str * str))) (a r : str),
+  parse_address_list mp a = Some r -> tokp r.
 Proof. exact parse_address_list_tok. Qed.
 Print Assumptions c13_address_list_wf.
 
 (** regression (fix e2cd37d): a ">" in front of the "<" used to panic; it is now
     taken as an address without display name *)
 Example c13_address_stray_gt :
-  parse_address_list (S_ ">a<") = Some (S_ "((NIL NIL "">a<"" NIL))").
+  parse_address_list (fun _ => None) (S_ ">a<") = Some (S_ "((NIL NIL "">a<"" NIL))").
 Proof. vm_compute. reflexivity. Qed.
 
 (** BODYSTRUCTURE of a single-part message: the fields printed after the
@@ -160,7 +163,7 @@ Proof. exact old_disposition_nil_malformed. Qed.
     ENVELOPE inside a quoted string; it is a literal now and the line is well-formed *)
 Example c13_old_bare_cr_malformed :
   wf_stream (send (S_ "* 1 FETCH (ENVELOPE (NIL ""a" ++ [CR] ++ S_ "b"" NIL NIL NIL NIL NIL NIL NIL NIL))")) = false
-  /\ match envelope_value w_cr_msg with
+  /\ match envelope_value (fun _ => None) w_cr_msg with
      | Some v => wf_stream (send (fetch_line 1 [Inline (S_ "ENVELOPE") v])) = true
      | None => False
      end.
